@@ -61,6 +61,7 @@ func RecordLines(g int, noKey bool) []string {
 		fmt.Sprintf("'txt.example.com,gen=%d,%d,,", g, t),
 		fmt.Sprintf("@example.com,,mx.example.com,10,%d,,", t),
 		fmt.Sprintf("+mx.example.com,%s,%d,,", ip(4), t),
+		fmt.Sprintf("+mx.example.com,%s,%d,,", ip(24), t), // two A records: the MX query's additional section is a weighted selection
 		fmt.Sprintf("+mx.example.com,%s,%d,,", ip6(4), t),
 		fmt.Sprintf("Cwww2.example.com,www.example.com,%d,,", t),
 		fmt.Sprintf("&sub.example.com,,ns.sub.example.com,%d,,", t),
@@ -180,8 +181,18 @@ var Queries = []Q{
 // BigQuery is the index of the query whose answer does not fit a small UDP buffer.
 const BigQuery = 20
 
-// Weighted tells whether the answer to query shape qi is subject to weighted selection.
-func Weighted(qi int) bool { return Queries[qi%len(Queries)].Name == "wrr.example.com." }
+// Weighted tells whether the answer section of query shape qi is subject to weighted selection.
+func Weighted(qi int) bool {
+	q := Queries[qi%len(Queries)]
+	return q.Name == "wrr.example.com." || (q.Name == "mx.example.com." && q.Type == dns.TypeA)
+}
+
+// WeightedExtra tells whether the additional section of query shape qi is subject to weighted
+// selection (the MX target has two A records).
+func WeightedExtra(qi int) bool {
+	q := Queries[qi%len(Queries)]
+	return q.Name == "example.com." && (q.Type == dns.TypeMX || q.Type == dns.TypeANY)
+}
 
 // Clients is the fixed table of client addresses: default location, location 2, location 3, IPv6.
 var Clients = []string{"192.0.2.1", "10.1.2.3", "10.2.3.4", "2001:db8::1"}
